@@ -51,20 +51,53 @@ end
 def strictDescendants : Tree → List Nat
   | .node _ cs => allPidsList cs
 
+/-! ## the kill channel with denoise (`uses_sudo`) -/
+
+mutual
+/-- the process with pid `p` and everything below it, as the privileged helper finds it again -/
+def findSub (p : Nat) : Tree → Option Tree
+  | .node q cs => if q = p then some (.node q cs) else findSubList p cs
+def findSubList (p : Nat) : List Tree → Option Tree
+  | [] => none
+  | c :: cs =>
+      match findSub p c with
+      | some t => some t
+      | none => findSubList p cs
+end
+
+/-- `deliver_kill_signal(pid)` (denoise_client.py:166-174): one call of
+`sudo -n <denoise> --json kill <pid>` per entry of the kill list; the argument vector
+after `sudo -n <denoise>` -/
+def sudoCalls (t : Tree) (killTree : Bool) : List (List String) :=
+  (killList t killTree).map (fun p => ["--json", "kill", toString p])
+
+/-- the privileged side, `denoise.py kill pid` → `kill_process(pid, True, None, None)`:
+SIGKILL for that process and all its descendants (nothing if it is gone) -/
+def privilegedKill (t : Tree) (p : Nat) : List Nat :=
+  match findSub p t with
+  | some st => killList st true
+  | none => []
+
+/-- every SIGKILL sent on behalf of one `kill_process` call with the sudo channel, in order -/
+def sudoKilled (t : Tree) (killTree : Bool) : List Nat :=
+  (killList t killTree).flatMap (privilegedKill t)
+
 /-! ## the decision of `subprocess_with_timeout.run` -/
 
 /-- how `_join_with_keep_alive` ended -/
 inductive JoinEnd where
   | finished    -- the worker thread ended (child exited, output read) before any limit
   | deadline    -- the time limit passed and the worker is still running
-  | interrupt   -- KeyboardInterrupt (Ctrl-C, or SIGTERM through the handler) arrived during the join
+  | interrupt   -- KeyboardInterrupt (Ctrl-C, or SIGTERM through the handler) arrived while run() waited for
+                -- the worker: in `thread.start()` or in the join
 deriving DecidableEq, Repr
 
 structure Situation where
   timeout       : Int       -- `max_invocation_time`; -1 disables the limit
   joinEnd       : JoinEnd
   aliveReported : Bool      -- `thread.is_alive()` as the interpreter reports it after the join
-  childRunning  : Bool      -- the truth: worker not finished (`returncode is None and exception is None`)
+  childRunning  : Bool      -- the truth: the worker was launched and has stored no result yet
+                            -- (`ident is not None and returncode is None and exception is None`): its child runs or is about to
   workerRaised  : Bool      -- the worker thread stored an exception (e.g. OSError from Popen)
 deriving DecidableEq, Repr
 
@@ -126,6 +159,23 @@ def runTraceWith (still : Situation → Bool) (s : Situation) (t : Tree) (killTr
 
 def runTrace := runTraceWith stillRunning
 def runTracePinned := runTraceWith stillRunningPinned
+
+/-- where an interrupt reaches `run`: while it is still inside `thread.start()`, or in the join -/
+inductive InterruptAt where
+  | start
+  | join
+deriving DecidableEq, Repr
+
+/-- **as repaired**: `thread.start()` is inside the `try`, so the place makes no difference -/
+def runTraceAt (_at : InterruptAt) (s : Situation) (t : Tree) (killTree : Bool) : List Ev :=
+  runTrace s t killTree
+
+/-- before that repair `thread.start()` stood before the `try`: a KeyboardInterrupt raised
+there left `run` at once, nothing was killed -/
+def runTraceStartOutside (at_ : InterruptAt) (s : Situation) (t : Tree) (killTree : Bool) : List Ev :=
+  match at_ with
+  | .start => [.raiseInterrupt]
+  | .join => runTrace s t killTree
 
 /-- `_join_with_keep_alive`: the time-outs handed to `thread.join`, for a worker
 that never finishes: one join for limits below 10 minutes, otherwise slices of at
